@@ -360,6 +360,13 @@ func genC02Special(r *rng, class int) int {
 				}
 				variants = append(variants, t)
 			}
+			if root.K == thrift.STRING && len(doc) > 2 { // a literal cut off so that its body is a multiple of 32 bytes (finding 213)
+				t := append([]byte(nil), doc[:len(doc)-1]...)
+				for (len(t)-1)%32 != 0 {
+					t = append(t, byte('a'+r.intn(26)))
+				}
+				variants = append(variants, t)
+			}
 			if root.K == thrift.STRING { // unquoted text for a STRING / binary descriptor: the whole text is the string
 				raws := [][]byte{[]byte("abc"), []byte("a\"b\\c"), []byte("null"), []byte("12"), []byte(" \"abc\""), []byte("aGVsbG8="), []byte("aGVsbG8"), []byte("a\nb\x01"),
 					[]byte("{\"a\":1}"), c.str(), r.bytes(1 + r.intn(20)), []byte("abc\""), []byte("x\"abc\"")}
